@@ -91,4 +91,7 @@ def fidelity(rho: np.ndarray, sigma: np.ndarray) -> float:
 def _psd_sqrt(mat: np.ndarray) -> np.ndarray:
     """Hermitian square root of a positive semidefinite matrix."""
     eig_vals, eig_vecs = np.linalg.eigh(mat)
-    return (eig_vecs * np.sqrt(np.clip(eig_vals, 0, None))) @ eig_vecs.conj().T
+    # Eigenvalues that are zero up to rounding would otherwise contribute sqrt(1e-16) = 1e-8.
+    cutoff = len(eig_vals) * np.finfo(float).eps * max(eig_vals.max(), 0.0)
+    eig_vals = np.where(eig_vals > cutoff, eig_vals, 0.0)
+    return (eig_vecs * np.sqrt(eig_vals)) @ eig_vecs.conj().T
